@@ -2,9 +2,31 @@ import props
 
 CONFIG = {
     "runs": props.simple("c06", 120, 1500),
-    "status": "partial (in progress): C06_enum_is_model_set (the full enumeration order is a duplicate-free listing of exactly "
-              "the models) and C06_compatible_count proved; the paging theorem (each page = the next slice of that order, cursor "
-              "arithmetic, cycle restart) is being proved; meanwhile pages are compared EXACTLY (order included) with the extracted "
-              "model of enumerate_node/enumerate and judged by the truth-table oracle (page size, no duplicate within a cycle, models containing A)",
-    "assumptions": ["cursor reset (hook) at the start of every history; amounts < 2^64"],
+    "status": "proved modulo one explicit hypothesis (exec_spec): "
+              "C06_enum_is_model_set, C06_compatible_count; "
+              "C06_mixed_radix_prefix (plain lists: truncating the factors as the And loop does keeps the first hi elements of the "
+              "cartesian product); "
+              "C06_enumerate_node_slice (FULL, no exec hypothesis: for idx_ok circuits without Or->True edges and temps = counts "
+              "under A on all non-true nodes, enumerate_node (lo,hi) i = slice lo hi of the node's full enumeration under A, as "
+              "lists, 0 <= lo < hi <= count; C06_or_true_child_refuted shows the Or->True side condition is necessary); "
+              "C06_enumerate_page / _page_cursor / _zero / _none_iff / _none_keeps_cursor / _out_of_range (one call of "
+              "Ddnnf::enumerate: page = map sort_abs (slice p (min c (p+amount)) EO), cursor[sort_abs A] := min c (p+amount) mod c, "
+              "other keys untouched, None iff MCA = 0 or a literal out of range, amount 0 -> Some [] and no change); "
+              "C06_pages_cyclic / _within_cycle / _within_cycle_from / _cycle (histories of requests with the literals in any order: "
+              "page sizes min k (c - pos), returned elements are EO[(p+j) mod c], cursor stays in [0,c), no duplicate within a "
+              "cycle, a full cycle is a permutation of ModelsA and returns the cursor to 0); C06_EOr_models, "
+              "C06_sorted_is_canonical, C06_sort_abs_canon (returned configurations are the truth-table rows), "
+              "C06_sort_abs_perm_eq (cursor key independent of literal order). "
+              "HYPOTHESIS of the page/history theorems: exec_spec C n A = execute_query on the preprocessed scratch returns "
+              "r = MCA C n A, if r > 0 leaves temps = countsA (sort_abs A) on every non-true node (the core shortcut that answers 0 "
+              "does not recompute temps) and keeps the scratch Clean (correctness of execute_query, proved separately; checked by "
+              "vm_compute on all partial assignments of three example circuits, marker and default strategy); discharged here for A = [] (C06_exec_spec_nil), so "
+              "C06_enumerate_page_nil and C06_pages_cycle_nil are unconditional. Side conditions: 0 < n "
+              "(C06_true_root_refuted: the one-node circuit TrueN with 0 features returns an empty page and has rt = 0) and "
+              "or_no_true_child. Correspondence: pages are compared EXACTLY (order included) with the extracted model of "
+              "enumerate_node/enumerate and judged by the truth-table oracle (page size, no duplicate within a cycle, models "
+              "containing A)",
+    "assumptions": ["cursor reset (hook) at the start of every history; amounts < 2^64",
+                    "exec_spec (correctness of execute_query on the preprocessed scratch incl. temps of non-true nodes) is a "
+                    "hypothesis of the page theorems for A <> []"],
 }
